@@ -92,10 +92,32 @@ def site_types(chain):
     return {s["site"]: s for s in chain["sites"]}
 
 
+STREAM = [False]      # rendering mode: iterator chains as futures streams (async macros)
+STREAM_OPS = {"map", "filter", "filter_map", "enumerate", "chain", "zip"}
+STREAM_END = {"fold", "collect", "unzip"}
+
+
+def stream_eligible(chain):
+    """iterator chains whose operators exist with the same meaning on futures::StreamExt and that end in a consumer"""
+    its = chain["items"]
+    if not is_it(chain["start"]) or len(its) < 1:
+        return False
+    if any(i["mv"] != "none" or i["deferred"] or i["shape"] != "closure" for i in its):
+        return False
+    return all(i["op"] in STREAM_OPS for i in its[:-1]) and its[-1]["op"] in STREAM_END
+
+
 def operand_text(item, site, st, fnitems, twin=False):
     """operand of a non-wrapper item (text after the operator symbol); None if the operator has none"""
     op, arg = item["op"], item["arg"]
     inty = st[site]["ty"]
+    if STREAM[0]:
+        if op in ("chain", "zip"):
+            return f"futures::stream::iter({VAL[arg]})"
+        if op in ("filter", "filter_map", "fold"):
+            p, b, r = cb_parts(arg, op, inty, site)
+            c = f"|{p}| futures::future::ready({b})"
+            return f"0i64, {c}" if op == "fold" else c
     if op == "dot":
         return DOT[arg]
     if op in ("or", "chain", "zip"):
@@ -278,6 +300,11 @@ SPAWNING = ("join_spawn", "try_join_spawn", "spawn", "try_spawn")
 
 def simple_expr(chain, variant, mchain):
     """expression whose value is the chain's value, evaluated by macro `variant`"""
+    if variant == "join_async":
+        return f"futures::executor::block_on(join_async! {{ futures::stream::iter(x) {mchain} }})"
+    if variant == "join_async_spawn":
+        return ("tokio::runtime::Builder::new_current_thread().build().unwrap().block_on("
+                f"join_async_spawn! {{ futures::stream::iter(x) {mchain}, futures::future::ready(0i64) }}).0")
     if variant in ("join", "try_join"):
         return f"{variant}! {{ x {mchain} }}"
     if variant.startswith("try_"):   # two-branch try variant: the transposed result, projected back on branch 0
@@ -324,8 +351,15 @@ def chain_fns(name, chain, variant="join"):
     ann = f": {rty}" if rty else ""
     fin = "rt::sem::drain(r)" if rty is None else "rt::sem::canon(&r)"
     mitems, titems = [], []
+    STREAM[0] = variant in ("join_async", "join_async_spawn")
     mchain = macro_chain(chain, mitems)
-    tstmts, tlast = twin_stmts(chain, site_types(chain), titems)
+    if STREAM[0]:
+        tstmts = ["use futures::StreamExt;",
+                  "let __s = futures::executor::block_on(" + twin_expr(chain["tree"], "futures::stream::iter(x)", site_types(chain), titems) + ");"]
+        tlast = "__s"
+    else:
+        tstmts, tlast = twin_stmts(chain, site_types(chain), titems)
+    STREAM[0] = False
     call = f"let r{ann} = {macro_expr(chain, variant, mchain)};"
     hdr = "#[allow(unused_mut, unused_variables, unused_parens, unused_braces, clippy::all)]\n"
     m = (hdr + f"pub fn m_{name}(k: usize) -> Value {{\n" + "".join(f"    {x}\n" for x in mitems) +
